@@ -98,10 +98,8 @@ func (w *BTWorld) Close() {
 	} else {
 		w.svc.CloseMem()
 	}
-}
-
-func (w *BTWorld) Destroy() {
-	w.Close()
+	// The process is gone: so are the engine handles the server never closes (those of deleted
+	// tables) together with the file locks they hold.
 	for _, yr := range w.rows {
 		if !yr.closed {
 			yr.closed = true
@@ -112,6 +110,10 @@ func (w *BTWorld) Destroy() {
 		}
 	}
 	w.rows = nil
+}
+
+func (w *BTWorld) Destroy() {
+	w.Close()
 	if w.Dir != "" {
 		os.RemoveAll(w.Dir)
 	}
